@@ -33,6 +33,8 @@ def run(prop, patch, tier="quick", budget=None, keep=False, tests=True):
         cmd = ["/venv/bin/python", os.path.join(VERIF, "bin/check"), prop, "--tier", tier, "--no-selftest"]
         if budget:
             cmd += ["--budget", str(budget)]
+        if os.environ.get("SENS_WORKERS"):
+            cmd += ["--workers", os.environ["SENS_WORKERS"]]
         t0 = time.time()
         c = subprocess.run(cmd, cwd=VERIF, capture_output=True, text=True, env=dict(os.environ, EVO_VERIF_REPO=d, EVO_VERIF_NO_EVIDENCE="1"))
         viol = [l for l in c.stdout.splitlines() if l.startswith("VIOLATION")]
